@@ -54,6 +54,18 @@ pub fn get_date_time_rfc1123_string() -> String {
     time_str.chars().collect()
 }
 
+/// The longest prefix of `s` that is at most `max_bytes` long and ends on a character boundary.
+pub fn truncate_at_char_boundary(s: &str, max_bytes: usize) -> &str {
+    if s.len() <= max_bytes {
+        return s;
+    }
+    let mut end = max_bytes;
+    while !s.is_char_boundary(end) {
+        end -= 1;
+    }
+    &s[..end]
+}
+
 pub fn get_date_time_unix_nano() -> i128 {
     OffsetDateTime::now_utc().unix_timestamp_nanos()
 }
